@@ -140,6 +140,8 @@ def decode(code):
             # the process stalls for k periods during iteration `at` of the period (clock jumps in one step): the loop
             # catches up on its time grid and the period goes on normally
             ops.append(["run", 3 + a, None, [a % 3, 2 + (a + s) % 4]])
+        elif o == 9 and s == 1:
+            ops.append(["run", 2 + a, None, None, {"event": ["on_iteration", "on_enable", "on_iteration"][a % 3], "n": 1 + (a % 2 if a % 3 != 1 else 0)}])
         elif o == 9:
             ops.append(["run", 1 + a])
         elif o == 10 and names:
@@ -360,7 +362,23 @@ class C14(Lab):
                             selected_non_default = True
                         cut = op[2] if len(op) > 2 else None
                         stall = op[3] if len(op) > 3 else None
-                        extra_it = self.drive_run(sel, op[1], case, disable_at=cut, stall=stall)
+                        boom = op[4] if len(op) > 4 else None
+                        if boom:
+                            # the FMS is attached by the time this period starts (whatever it was when the selector
+                            # was built) and one callback of the chosen mode raises: with the default exception policy
+                            # of run() the fault is tolerated and the period is delivered in full
+                            DSS.setFmsAttached(True)
+                            DSS.notifyNewData()
+                            R._COUNT.clear()
+                            R.FAULT.update(boom)
+                            classes.add("raising-mode-under-fms")
+                        try:
+                            extra_it = self.drive_run(sel, op[1], case, disable_at=cut, stall=stall)
+                        finally:
+                            if boom:
+                                R.FAULT.clear()
+                                DSS.setFmsAttached(bool(case["fms"]))
+                                DSS.notifyNewData()
                         periods += 1
                         classes.add("run()")
                         n_it = (op[1] if cut is None else min(op[1], cut)) + extra_it
